@@ -265,6 +265,13 @@ func maintainBulkCache() {
 		_ = os.RemoveAll(BulkCache)
 		n = 0
 	}
+	if low {
+		// the user's own build cache (CLI, overlay and wire builds of many tree hashes end up there) is trimmed
+		// too when space runs low; we hold the exclusive lock, so no other check is building right now
+		cmd := exec.Command(GoBin, "clean", "-cache")
+		cmd.Env = GoEnv()
+		_ = cmd.Run()
+	}
 	_ = os.MkdirAll(BulkCache, 0o755)
 	_ = os.WriteFile(uses, []byte(fmt.Sprint(n+1)), 0o644)
 }
